@@ -17,6 +17,7 @@ import (
 	"math/rand"
 	"net/http"
 	"net/http/httptest"
+	"runtime"
 	"time"
 
 	"0chain.net/chaincore/block"
@@ -195,6 +196,91 @@ func (d *drv) latest(prev int64) int64 {
 	return rel
 }
 
+// burst delivers several inputs so that the worker finds them queued TOGETHER (its drain loops pick one of a
+// batch). The handler's two steps are taken apart for that: every ticket is first checked with the real
+// verifyLFBTicket (what LFBTicketHandler does before enqueuing; BLS verification is a cgo call during which the
+// worker would run), then all accepted tickets are enqueued back to back with the real AddReceivedLFBTicket /
+// BroadcastLFBTicket while the process runs on a single P, so the worker cannot take the first before the last
+// is queued. Half of the bursts are "newest first, stale last".
+func (d *drv) burst(cur int64, n int) {
+	signers := []string{"sharder", "sharder", "self", "miner", "exsharder", "unknown"}
+	type input struct {
+		kind string
+		t    tkt
+		r    int64
+		tk   *chain.LFBTicket
+		b    *block.Block
+		ok   bool
+	}
+	var ins []input
+	if d.r.Intn(2) == 0 {
+		up := cur + 1 + int64(d.r.Intn(2))
+		down := cur - 1 - int64(d.r.Intn(2))
+		if down < 1 {
+			down = 1
+		}
+		ins = append(ins, input{kind: "submit", t: tkt{Round: up, Signer: "sharder", Sig: "ok"}},
+			input{kind: "submit", t: tkt{Round: down, Signer: "sharder", Sig: "ok"}})
+		if n > 2 {
+			ins = append(ins, input{kind: "submit", t: tkt{Round: down, Signer: "sharder", Sig: "ok"}})
+		}
+	} else {
+		for j := 0; j < n; j++ {
+			r := cur + int64(d.r.Intn(5)) - 2
+			if r < 1 {
+				r = 1
+			}
+			switch x := d.r.Intn(10); {
+			case x < 7:
+				ins = append(ins, input{kind: "submit", t: tkt{Round: r, Signer: signers[d.r.Intn(len(signers))], Sig: sigKinds[d.r.Intn(len(sigKinds))]}})
+			case x < 9:
+				ins = append(ins, input{kind: "broadcast", r: r})
+			default:
+				ins = append(ins, input{kind: "kick", r: r})
+			}
+		}
+	}
+	for i := range ins {
+		in := &ins[i]
+		switch in.kind {
+		case "submit":
+			in.tk = d.makeTicket(in.t)
+			in.ok = d.c.VerifVerifyLFBTicket(in.tk)
+		case "broadcast":
+			in.b = block.NewBlock(d.c.GetKey(), d.base+in.r)
+			in.b.Hash = encryption.Hash(fmt.Sprintf("own:%d", d.base+in.r))
+		case "kick":
+			in.tk = &chain.LFBTicket{Round: d.base + in.r}
+		}
+	}
+	procs := runtime.GOMAXPROCS(1)
+	for i := range ins {
+		in := &ins[i]
+		switch {
+		case in.kind == "submit" && in.ok, in.kind == "kick":
+			d.c.AddReceivedLFBTicket(d.ctx, in.tk)
+		case in.kind == "broadcast":
+			d.c.BroadcastLFBTicket(d.ctx, in.b)
+		}
+	}
+	runtime.GOMAXPROCS(procs)
+	for _, in := range ins {
+		switch in.kind {
+		case "submit":
+			d.n++
+			if in.tk.Sign != "" {
+				d.sent[in.tk.Sign] = d.n
+			}
+			d.rc.Emit(rec.M{"ev": "Submit", "tid": d.n, "round": in.t.Round, "signer": in.t.Signer, "sig": in.t.Sig,
+				"handler_ok": in.ok, "verify": in.ok}, fmt.Sprintf("%s/%s/%v/burst", in.t.Signer, in.t.Sig, in.ok), false)
+		case "broadcast":
+			d.rc.Emit(rec.M{"ev": "Broadcast", "round": in.r}, "broadcast", false)
+		case "kick":
+			d.rc.Emit(rec.M{"ev": "Kick", "round": in.r}, "kick", false)
+		}
+	}
+}
+
 var sigKinds = []string{"ok", "ok", "ok", "otherkey", "otherround", "garbage", "empty"}
 
 func (d *drv) trace(id int, a common.Args) {
@@ -224,6 +310,11 @@ func (d *drv) trace(id int, a common.Args) {
 			// loops; how the worker batches them is up to the scheduler). The other traces are
 			// strictly one input per observation, hence fully deterministic.
 			burst = 2 + d.r.Intn(2)
+		}
+		if burst > 1 {
+			d.burst(cur, burst)
+			cur = d.latest(cur)
+			continue
 		}
 		for j := 0; j < burst; j++ {
 			// rounds around the current one: below, equal, above
